@@ -37,16 +37,22 @@ def run(chk, replay=None):
     else:
         tour, st1 = vf.tlc_gen("RosterGen.tla", "RosterGenTour.cfg")
         allp, st2 = vf.tlc_gen("RosterGen.tla", "RosterGenAll.cfg" if quick else "RosterGenAll5.cfg")
-        sim, st3 = vf.tlc_simulate("RosterGen.tla", "RosterGenSim.cfg", num=300 if quick else 6000, depth=14 if quick else 24,
+        sim, st3 = vf.tlc_simulate("RosterGen.tla", "RosterGenSim.cfg", num=300 if quick else 1500, depth=14 if quick else 24,
                                    seed=chk.seed, workers=TLC_WORKERS)
         gen = {"tour_1_contact": st1, "all_paths": st2, "simulate": st3}
-        behs = tour + allp + sim
         if not quick:
+            # the larger generators are sampled (seeded) to stay inside the thorough budget
+            st2["replayed"] = min(len(allp), 10000)
+            random.Random(chk.seed).shuffle(allp)
+            allp = allp[:10000]
             tour2, st4 = vf.tlc_gen("RosterGen.tla", "RosterGenTour2.cfg")
-            st4["replayed"] = min(len(tour2), 40000)
-            random.Random(chk.seed).shuffle(tour2)
-            behs += tour2[:40000]
+            st4["replayed"] = min(len(tour2), 15000)
+            random.Random(chk.seed + 1).shuffle(tour2)
+            tour2 = tour2[:15000]
             gen["tour_2_contacts_sampled"] = st4
+        else:
+            tour2 = []
+        behs = tour + allp + sim + tour2
         behs = vf.maximal_behaviours(behs)
         chk.cov["generation"] = gen
     vf.write_ndjson(chk.path("behaviours.ndjson"), behs)
@@ -69,7 +75,7 @@ def run(chk, replay=None):
     chk.cov["exhaustive"] = True
     chk.cov["rule"] = ("behaviours = transition tour of the one-contact model (every transition of RosterGenTour.cfg) + all step "
                        "sequences up to the all-paths depth + seeded random walks over 3 contacts / 3 resources / 2-item pushes "
-                       "(thorough: + sampled tour of the two-contact model); each replayed on a real QXmppClient + "
+                       "(thorough: + seeded samples of the deeper all-paths set and of the tour of the two-contact model); each replayed on a real QXmppClient + "
                        "QXmppRosterManager connected to a scripted server over 127.0.0.1 (real SASL, bind, XEP-0198 "
                        "enable/resume/failed resume, cut, disconnectFromServer) and validated by RosterTrace.tla")
     for b in behs[:2] + behs[-2:]:
